@@ -24,7 +24,7 @@ PATHS = ("law", "block", "block_valid", "stream", "read_dedisp", "dmt", "dmt_val
 
 
 def REQUIRED(tier):
-    return [f"path:{p}" for p in PATHS] + ["regime:negative_delays", "regime:foff>0", "regime:dm<0", "law_checks", "elements_compared", "regime:multi_file_input", "path:block_second_reference"]
+    return [f"path:{p}" for p in PATHS] + ["regime:negative_delays", "regime:foff>0", "regime:dm<0", "law_checks", "elements_compared", "regime:multi_file_input", "path:block_second_reference", "tie_sweep_dms", "exact_half_sample_ties", "law_after_stream_checks"]
 
 
 def cases(tier, seed):
@@ -33,6 +33,8 @@ def cases(tier, seed):
         yield {"kind": "paths", "n": 10, "seed": int(seed) * 100003 + i}
     for i in range(0, n * 10, 200):
         yield {"kind": "law", "n": 200, "seed": int(seed) * 100003 + i}
+    for i in range(8 if tier == "quick" else 160):
+        yield {"kind": "ties", "n": 1, "seed": int(seed) * 100003 + i}
 
 
 def _band(rng):
@@ -76,9 +78,61 @@ def _pick_dm(rng, hdr, n, ref="ch1", frac=None):
 
 
 def run_case(case, ctx):
+    if case["kind"] == "ties":
+        return _ties(case, ctx)
     js = [case["only"]] if "only" in case else range(case["n"])
     for j in js:
         (_law if case["kind"] == "law" else _paths)(case, j, ctx)
+
+
+def _ties(case, ctx):
+    """Delays of thousands of samples on a quarter-DM grid: a few per cent of the DMs put some channel's single-precision delay exactly
+    half-way between two samples.  Whatever the tie rule, delays(-DM) == -delays(DM) must hold exactly (dedispersing at DM and then at -DM
+    is the identity) and Header.get_dmdelays must agree with params.compute_dmdelays."""
+    from sigpyproc import params
+
+    rng = np.random.default_rng([case["seed"], 41])
+    nch = int(rng.choice([32, 64, 128]))
+    fch1 = float(rng.choice([1500.0, 1400.0, 800.0]))
+    foff = -float(rng.choice([4.0, 1.0, 0.5])) * float(rng.choice([1, -1]))
+    if foff > 0:
+        fch1 = fch1 - 0.9 * nch * foff
+    tsamp = float(rng.choice([64e-6, 128e-6, 2.0 ** -14]))
+    hdr = _hdr(nch, fch1, foff, tsamp, 100000)
+    f32 = np.asarray(hdr.chan_freqs).astype(np.float32)
+    dm0 = float(rng.integers(50, 300))
+    nties = 0
+    for k in range(400):
+        dm = dm0 + 0.25 * k
+        ctx.evaluated(); ctx.count("tie_sweep_dms")
+        one = dict(case, dm=dm)
+        try:
+            d = np.asarray(hdr.get_dmdelays(dm)).astype(np.int64)
+            dn = np.asarray(hdr.get_dmdelays(-dm)).astype(np.int64)
+            dfun = np.asarray(params.compute_dmdelays(hdr.chan_freqs, dm, tsamp, hdr.fch1)).astype(np.int64)
+            fl = np.asarray(hdr.get_dmdelays(dm, in_samples=False), dtype=np.float32) / np.float32(tsamp)
+        except Exception as exc:  # noqa: BLE001
+            ctx.violation(f"law-raised:{type(exc).__name__}@{exc_site(exc)}", fmt_exc(exc), one)
+            return
+        tie = np.abs(fl - np.floor(fl)) == 0.5
+        nties += int(tie.sum())
+        if not np.array_equal(dn, -d):
+            c = int(np.flatnonzero(dn != -d)[0])
+            ctx.violation(f"law-antisymmetry{'[exact-half-sample]' if tie[c] else ''}", f"delays(-{dm})[{c}] = {dn[c]} but delays({dm})[{c}] = {d[c]} (delay/tsamp = {float(fl[c])!r})", one)
+            return
+        if not np.array_equal(d, dfun):
+            ctx.violation("law-header-vs-function", f"Header.get_dmdelays({dm}) differs from compute_dmdelays on the same inputs", one)
+            return
+        v = refmodels.dm_delay_exact(f32.astype(np.float64), dm, tsamp, float(hdr.fch1))
+        # single-precision evaluation of the difference of two large terms: same error bound as in _law
+        tolv = 16 * 2.0 ** -24 * refmodels.DM_CONST * abs(dm) / tsamp * max(float(f32.min()), 1.0) ** -2.0 + 16 * 2.0 ** -24 * np.abs(v)
+        if np.any(np.abs(d - v) > 0.5 + tolv + 1e-9):
+            c = int(np.argmax(np.abs(d - v)))
+            ctx.violation("law-value", f"delay[{c}]={d[c]} but law gives {v[c]:.4f} (dm={dm})", one)
+            return
+    ctx.count("exact_half_sample_ties", nties)
+    ctx.nontrivial_case(case)
+    ctx.sample({"kind": "ties", "nchans": nch, "fch1": fch1, "foff": foff, "tsamp": tsamp, "dm_range": [dm0, dm0 + 100], "exact_half_sample_channels_seen": nties})
 
 
 # ------------------------------------------------------------------ (a)
@@ -257,6 +311,16 @@ def _paths(case, j, ctx):
                     _viol(ctx, "stream-dm", regime1, f"header.dm {ts.header.dm} != {dm}", one)
         except Exception as exc:  # noqa: BLE001
             _viol(ctx, f"stream-raised:{type(exc).__name__}@{exc_site(exc)}", regime1, fmt_exc(exc), one)
+
+        # ---- the delay law must read the same after the streamed call as before it (no shared table altered by a consumer)
+        ctx.count("law_after_stream_checks")
+        try:
+            d_after = np.asarray(fil.header.get_dmdelays(dm)).reshape(-1).astype(np.int64)
+            d_hdr = np.asarray(hdr.get_dmdelays(dm)).reshape(-1).astype(np.int64)
+            if not (np.array_equal(d_after, d1) and np.array_equal(d_hdr, d1)):
+                _viol(ctx, "law-changed-by-streamed-dedispersion", regime1, f"get_dmdelays({dm}) returns {d_after[:4].tolist()} after Filterbank.dedisperse, {d1[:4].tolist()} before", one)
+        except Exception as exc:  # noqa: BLE001
+            _viol(ctx, f"law-after-stream-raised:{type(exc).__name__}", regime1, fmt_exc(exc), one)
 
         # ---- read_dedisp_block
         ctx.evaluated(); ctx.count("path:read_dedisp")
